@@ -2566,7 +2566,11 @@ class ISwapGate(Gate):
         """
         Return the inverse operator.
         """
-        return self
+        # iSWAP is not an involution: the inverse is its adjoint
+        invgate = GeneralGate(self.as_matrix().conj().T, 2)
+        if self.q1 and self.q2:
+            invgate.on(self.q1, self.q2)
+        return invgate
     
     def on(self, q1: Qubit, q2: Qubit):
         """
